@@ -539,7 +539,19 @@ def Ctx.opSetSubC (c : Ctx) (a : Actor) (tn : TName) (viaChn : Bool) (target : U
           | .error _ => c.emit a.sid (ctrl 400 tn)
           | .ok _ => c.emit a.sid (ctrl 303 tn s!" topic={tn}"))
       else c.opSetSub a tn target mode
-    | none => c.opSetSub a tn target mode
+    | none =>
+      if viaChn ∧ tg = a.uid then
+        -- a reader whose record was dropped while a background session stayed attached: cached again from the reader's row
+        let (c, t, r) := c.readerSub t a mode .absent false
+        let c := match r with
+          | none => c
+          | some res =>
+            match res.modeChanged with
+            | some (w, g) => c.emit a.sid (ctrl 200 tn s!" acs={acsStr w g}")
+            | none => c.emit a.sid (ctrl 304 tn)
+        c.putLive t
+      else if viaChn then c.emit a.sid (ctrl 403 tn)
+      else c.opSetSub a tn target mode
 
 /-- {set desc} on a channel-enabled topic -/
 def Ctx.opSetDescC (c : Ctx) (a : Actor) (tn : TName) (viaChn : Bool) (o : SetDescOpts) : Ctx :=
